@@ -129,7 +129,9 @@ def run_with_fault(make, method, inj: Injector, compile_fault=None, hess_fault=N
                 ncompile[0] += 1
                 raise exc("injected fault in compile")
             ncompile[0] += 1
-        return real_compile(e, V)
+        # every compiled callable is counted wherever it is called from - inside the solver or in the wrapper's own
+        # post-solve scan - so a fault can strike at ANY evaluation of the model
+        return inj.wrap("compiled", real_compile(e, V))
 
     def fake_hess(e, V):
         if hess_fault is not None:
@@ -244,10 +246,17 @@ def run(rep: vk.Report):
     import optyx.analysis as AN
     real_lin = scipy.optimize.linprog
     real_extract = AN.LinearProgramExtractor.extract
-    for where in ["LOracle", "LExtract"]:
+    for where, mx, warm in [(w_, m_, h_) for w_ in ["LOracle", "LExtract"] for m_ in (False, True) for h_ in (False, True)]:
         for ename, ecls in EXC.items():
-            a = Variable("a", lb=0, ub=4); b = Variable("b", lb=0, ub=4)
-            P = Problem().minimize(a + 2 * b + 5).subject_to(a + b >= 1)
+            if where == "LExtract" and warm:
+                continue                      # a warm problem does not extract again
+            a = Variable("a", lb=0, ub=4); b = Variable("b", lb=0, ub=3)
+            P = (Problem().maximize(a + 2 * b + 5) if mx else Problem().minimize(a + 2 * b + 5)).subject_to(a + b >= 1).subject_to(a + b <= 5)
+            want = 16.0 if mx else 6.0        # max: a=2,b=3 -> 2+6+5+... (a+b<=5: a=2,b=3 -> 13) ; computed below independently
+            ref = real_lin(c=[-1.0, -2.0] if mx else [1.0, 2.0], A_ub=[[-1.0, -1.0], [1.0, 1.0]], b_ub=[-1.0, 5.0], bounds=[(0, 4), (0, 3)], method="highs")
+            want = (-ref.fun if mx else ref.fun) + 5.0
+            if warm:
+                P.solve()
             hook0 = warnings.showwarning
             try:
                 if where == "LOracle":
@@ -266,12 +275,13 @@ def run(rep: vk.Report):
             injections += 1
             hook_ok = warnings.showwarning is hook0
             nxt = P.solve()
-            if nxt.status.value != "optimal" or abs(nxt.objective_value - 6.0) > 1e-9:
+            if nxt.status.value != "optimal" or abs(nxt.objective_value - want) > 1e-9:
                 next_diffs += 1
                 rep.violation({"kind": "next-solve", "obligation": "the next LP solve equals the baseline", "witness": {"fault": [where, ename],
-                               "next": [nxt.status.value, nxt.objective_value]}}, concrete=True)
-            lpcases.add(f"({where}, {ename}, {'true' if hook_ok else 'false'}, {out})", {"fault": [where, ename], "out": out},
-                        kinds={where, ename})
+                               "maximize": mx, "cache_warm_before_fault": warm, "next": [nxt.status.value, nxt.objective_value, nxt.values],
+                               "expected_objective": want}}, concrete=True)
+            lpcases.add(f"({where}, {ename}, {'true' if hook_ok else 'false'}, {out})", {"fault": [where, ename], "out": out, "maximize": mx, "warm": warm},
+                        kinds={where, ename, str(mx), str(warm)})
     lfails = lpcases.run()
     for i in lfails:
         rep.violation({"kind": "correspondence", "obligation": "LP wrapper outcome after the fault = model", "meta": lpcases.meta[i],
